@@ -113,6 +113,9 @@ class Instance:
 
     # Original type despite custom serialization. To be revised.
     _original_type: Type = field(init=False)
+    # the Annotated form of the type: like the type itself and its origin
+    # it can be a key of serialization_strategy
+    _annotated_type: Optional[Type] = field(init=False, default=None)
 
     origin_type: Type = field(init=False)
     annotations: list[Annotation] = field(init=False, default_factory=list)
@@ -174,11 +177,14 @@ class Instance:
         self._original_type = self.type
         self.update_type(self.type)
         if is_annotated(self.type):
+            annotated_type = self.type
             self.annotations = getattr(self.type, "__metadata__", [])
             self.type = get_args(self.type)[0]
             self.update_type(self.type)
+            self._annotated_type = annotated_type
 
     def update_type(self, new_type: Type) -> None:
+        self._annotated_type = None
         if self.__owner_builder:
             self.type = self.__owner_builder.get_real_type(
                 field_name=self.name,  # type: ignore
@@ -224,19 +230,24 @@ class Instance:
             if callable(serialize_option):
                 self.metadata.pop("serialize", None)  # prevent recursion
             return serialize_option
-        for strategy in self.__owner_builder.iter_serialization_strategies(
-            self.metadata, self.type
-        ):
-            if strategy is pass_through:
-                return pass_through
-            elif isinstance(strategy, dict):
-                serialize_option = strategy.get("serialize")
-            elif isinstance(strategy, SerializationStrategy):
-                serialize_option = strategy.serialize
-            if serialize_option is not None:
-                # prevent recursion
-                self.metadata.pop("serialization_strategy", None)
-                return serialize_option
+        # the same keys, in the same order, as the serializer looks up
+        checking_types = [self.type, self.origin_type]
+        if self._annotated_type is not None:
+            checking_types.insert(0, self._annotated_type)
+        for typ in checking_types:
+            for strategy in self.__owner_builder.iter_serialization_strategies(
+                self.metadata, typ
+            ):
+                if strategy is pass_through:
+                    return pass_through
+                elif isinstance(strategy, dict):
+                    serialize_option = strategy.get("serialize")
+                elif isinstance(strategy, SerializationStrategy):
+                    serialize_option = strategy.serialize
+                if serialize_option is not None:
+                    # prevent recursion
+                    self.metadata.pop("serialization_strategy", None)
+                    return serialize_option
         return None
 
     def get_owner_config(self) -> Type[BaseConfig]:
